@@ -158,6 +158,7 @@ struct DstrEngine : Engine {
 		size_t start = (size_t)starts[kn.below(8)];
 		knobs["dstring_start"] = (int64_t)start;
 		knobs["realloc"] = kn.chance(1, 2) ? 1 : 0;
+		knobs["malloc_fill"] = kn.chance(1, 2) ? 1 : 0;      // fresh heap memory holds garbage: a terminator or length that was only "there" because new memory happened to be zero shows up
 		p["knobs"] = knobs;
 		int nops = (int)w.range(1, tier == "thorough" ? 60 : 40);
 		Model m[3];
